@@ -599,6 +599,9 @@ def gen_spec(rng, cfg):
     # of the loggers labrea writes to, logging.disable(), RuntimeWarnings turned into errors.  None of it may change what
     # the properties talk about.
     if cfg.get("env") is not False and rng.random() < 0.2:
+        # (options handed over as a Mapping that is no dict -- ChainMap, UserDict -- were tried and withdrawn: confectioner.mix treats
+        #  a non-dict base as a plain value, so WithOptions loses the caller's options on the unchanged tree; the properties speak
+        #  of option DICTIONARIES)
         spec["env"] = {"log_level": rng.choice(["DEBUG", "INFO", None]), "log_disable": rng.random() < 0.3, "warn_error": rng.random() < 0.4}
     return spec
 
